@@ -193,6 +193,10 @@ def apply_one(mod: str, v, field, applied: list[str]):
                 pat = ".*" + pat
             if post and not (v[1].endswith(".*") or v[1].endswith("$")):
                 pat = pat + ".*"
+            try:  # the extended pattern must still be a regular expression ('.*(?i)x' is not)
+                _re.compile(pat)
+            except Exception:
+                raise Reject("regular expression invalid after " + mod)
             return ("re", pat, v[2], v[3])
         if k == "fieldref":
             return ("fieldref", v[1], v[2] or post, v[3] or pre)
